@@ -25,7 +25,9 @@ SPEC = dict(
           "four quantities whose int64 product wraps); ALL volumes of <= 2 (quick) / <= 3 (thorough) structures with offset in "
           "{none,1M,2M,3M}, size in {1M,2M}, min-size in {none,1M}; 72 floating chains (a min-size < size structure at 1M, one or two "
           "structures without an offset of their own, min-size < or = size, then a structure whose explicit offset sweeps in 1M steps "
-          "from the start of the last floating structure over its min-size end to past its full-size end); every 8th random case a "
+          "from the start of the last floating structure over its min-size end to past its full-size end); 108 content cases: a 4096-byte bare structure at 1M with 2-4 raw images at explicit offsets in EVERY declaration order, the "
+          "physically last image fitting exactly / sticking out by 1 byte / by a whole slot (so each declaration position is the "
+          "overflowing one in some case), plus implicit-offset images after explicit ones; every 8th random case a "
           "random floating chain with byte-exact offsets (min-size end -1/0/+1, full-size end -1/0/+1); random mostly-valid volumes of 1-7 structures: optional MBR "
           "(type: mbr / role: mbr on bare or GUID type, sizes 100/440/446/447), structures placed left to right with explicit "
           "offsets (at, after, slightly before or far before the running end), implicit offsets, min-size < / = / > size, "
